@@ -20,6 +20,9 @@ deriving DecidableEq, Repr
 inductive StartKey
   | good (e : Nat)                    -- a 32-byte controller ephemeral public key (number e)
   | wrongLen (n : Nat)                -- any other length (incl. missing)
+  | lowOrder                          -- 32 bytes that are a point of small order (0, 1, p-1, p, p+1, …): the shared secret is
+                                      -- all zero whatever the accessory's key pair is. Refused (F61 repair; before it the
+                                      -- exchange went on, and every session of that controller had the same keys)
 deriving DecidableEq, Repr
 
 /-- Ed25519 signature in M3: sign(sk_signer, ctrlEph ‖ name ‖ accEph_{conn,epoch}) -/
@@ -103,6 +106,7 @@ def stepR (fixed renew : Bool) (c : Nat) (db : Store) (st : St) : In → St × O
     if st.step ≠ .waiting then ({ st with step := .waiting }, .http500)
     else match key with
       | .wrongLen _ => ({ st with step := if fixed then .waiting else .startResp }, .http500)
+      | .lowOrder => ({ st with step := .waiting }, .http500)
       | .good e =>
         let ep := if renew then st.epoch + 1 else st.epoch
         ({ st with step := .startResp, other := some e, epoch := ep, K := .ofEph c ep e }, .tlv 2 none true true)
